@@ -8,6 +8,18 @@ import (
 	"strings"
 )
 
+// isAbortCall: functions that end the process without unwinding (no deferred function runs, recover() does not see them)
+func isAbortCall(fn *types.Func) bool {
+	if fn.Pkg() == nil {
+		return false
+	}
+	switch fn.FullName() {
+	case "os.Exit", "log.Fatal", "log.Fatalf", "log.Fatalln", "runtime.Goexit":
+		return true
+	}
+	return (isLoggerPkg(fn.Pkg()) || fn.Pkg().Path() == "log") && strings.HasPrefix(fn.Name(), "Fatal")
+}
+
 func isLoggerPkg(p *types.Package) bool {
 	if p == nil {
 		return false
@@ -247,6 +259,13 @@ func (f *FuncCtx) call(st *State, call *ast.CallExpr) []Term {
 	}
 	sig := fn.Type().(*types.Signature)
 	key := fn.FullName()
+	// process aborts: os.Exit, log.Fatal*, and the Fatal* methods of every logger (logrus, zap and zerolog exit the process; the
+	// repository's own logger interface does so as soon as a real logger is configured). No deferred recover() intercepts them, so
+	// such a call must be UNREACHABLE in a function under contract (C20 "does not abort the process", C14 containment).
+	if isAbortCall(fn) {
+		f.oblige(st, "false", f.site("noabort"), "noabort", "no call that ends the process is reachable ("+key+")", nil, f.pos(call))
+		st.assume("false")
+	}
 	// loggers: evaluate arguments for their panic edges, no effect
 	if isLoggerPkg(fn.Pkg()) {
 		for _, a := range call.Args {
@@ -591,9 +610,15 @@ func (f *FuncCtx) builtin(st *State, call *ast.CallExpr, name string) []Term {
 			n := f.expr(st, call.Args[1])
 			f.panicIf(st, "(< "+n.S+" 0)", f.site("makeneg"))
 			z := f.zero(u.Elem())
+			// what make() allocates is the CAPACITY when one is given (make([]T, 0, n) allocates n elements)
+			sz := n
+			if len(call.Args) > 2 {
+				sz = f.expr(st, call.Args[2])
+				f.panicIf(st, "(< "+sz.S+" "+n.S+")", f.site("makecap"))
+			}
 			if _, declared := f.w.ghosts["$allocated"]; declared {
 				cur := f.ghostTerm(st, "$allocated")
-				st.ghost["$allocated"] = Term{S: "(+ " + cur.S + " " + n.S + ")", Sort: SInt}
+				st.ghost["$allocated"] = Term{S: "(+ " + cur.S + " " + sz.S + ")", Sort: SInt}
 			}
 			return []Term{{S: "(mk_" + ss + " " + n.S + " ((as const (Array Int " + es + ")) " + z.S + "))", Sort: ss, GoT: t}}
 		}
